@@ -108,7 +108,7 @@ theorem tableSim_renumber (env : Env) (g : Bool) (R : List Rule) (hres : Resolve
         simp only [Nat.zero_add, hget, Option.map_some] at this
         exact this
       · obtain ⟨hqs, _⟩ := hst q hq
-        exact ⟨rfl, rfl, rfl, hqs.symm, rfl, rfl, hsub q hq⟩
+        exact ⟨⟨rfl, rfl, rfl, hqs.symm, rfl, rfl, hsub q hq⟩, Iff.rfl⟩
   exact key R 0 (fun _ h => h)
 
 theorem envSim_refl (env : Env) : EnvSim env env := rfl
